@@ -77,6 +77,40 @@ Theorem C15_global_body_no_crash : forall e, exists o, global_body e = Ok o.
 Proof. exact global_body_no_crash. Qed.
 Print Assumptions C15_global_body_no_crash.
 
+(* ---- multi-file worlds: references stay symbolic, the model transcribes the file lookup of
+   get_const (worklist of (file, expr)) and const_data (`Fqn { file: loc.file(), name }`). -------- *)
+(* An accepted array length / discriminant / integer comptime argument is exactly the value the
+   expression denotes, where a plain global name is a global of the file the expression lives in
+   and `file.name` a global of that file — for every world, file, expression and fuel. *)
+Theorem C15_world_accepted_array_len_denotes : forall w fuel cur e n,
+  array_len_w w fuel cur e = Ok (Accepted (DInt n)) -> denotes_w w cur e n.
+Proof. exact world_accepted_array_len_denotes. Qed.
+Print Assumptions C15_world_accepted_array_len_denotes.
+
+Theorem C15_world_accepted_discriminant_denotes : forall w fuel cur e n,
+  discriminant_w w fuel cur e = Ok (Accepted (DInt n)) -> denotes_w w cur e n.
+Proof. exact world_accepted_discriminant_denotes. Qed.
+Print Assumptions C15_world_accepted_discriminant_denotes.
+
+Theorem C15_world_accepted_comptime_arg_denotes : forall w fuel cur e n,
+  comptime_arg_w w fuel cur e = Ok (Accepted (DInt n)) -> denotes_w w cur e n.
+Proof. exact world_accepted_comptime_arg_denotes. Qed.
+Print Assumptions C15_world_accepted_comptime_arg_denotes.
+
+(* the denoted value is unique *)
+Theorem C15_world_denotes_unique : forall w cur e n,
+  denotes_w w cur e n -> forall m, denotes_w w cur e m -> n = m.
+Proof. exact denotes_w_fun. Qed.
+Print Assumptions C15_world_denotes_unique.
+
+(* Non-vacuity: main has size = 3, other has size = 5 and buf_len :: size; `other.buf_len` used in
+   main is 5 and not 3. *)
+Example C15_world_example :
+  array_len_w demo_world 10 0 (WMember 1 8) = Ok (Accepted (DInt 5))
+  /\ denotes_w demo_world 0 (WMember 1 8) 5
+  /\ ~ denotes_w demo_world 0 (WMember 1 8) 3.
+Proof. exact demo_world_ok. Qed.
+
 Example C15_example :
   let e := CLocal false (Some (CGlobal false true (CLocal false (Some (CLit (LInt 3)))))) in
   wf e = true /\ has_char e = false /\ array_len e = Ok (Accepted (DInt 3))
